@@ -3,6 +3,7 @@ import Jsonapi.Basic.Core
 import Jsonapi.Basic.Sx
 import Jsonapi.Model.Schema
 import Jsonapi.Generated.Facts
+import Jsonapi.Props.C09
 import Jsonapi.Props.C10
 import Jsonapi.Props.C14
 import Jsonapi.Props.C15
